@@ -40,10 +40,16 @@ DivOf(i) ==
 
 Count(S, P(_)) == Cardinality({i \in S : P(i)})
 
+\* viol keeps the first occurrence (lowest line) of every signature kind|class, div a bounded
+\* sample; the totals are in cnt (a broken tree can make every line a violation)
+SameSig(v, w) == v.kind = w.kind /\ v.class = w.class
+FirstOfEach(V) == {v \in V : \A w \in V : SameSig(v, w) => v.line <= w.line}
+MaxDivKept == 200
+
 TraceInit ==
     /\ l = 1 /\ viol = {} /\ div = {}
     /\ cnt = [cases |-> 0, unbuilt |-> 0, must |-> 0, must_rejected |-> 0, free |-> 0,
-              free_accepted |-> 0, free_ante_passed |-> 0, accepted |-> 0]
+              free_accepted |-> 0, free_ante_passed |-> 0, accepted |-> 0, violating |-> 0, diverging |-> 0]
     /\ st = [phase |-> "trace"]
 
 TraceNext ==
@@ -52,9 +58,11 @@ TraceNext ==
            R  == l..hi
            C  == {i \in R : IsCase(i)}
            MR == {i \in C : MustReject(Trace[i].tx)}
+           NV == UNION {ViolOf(i) : i \in R}
+           ND == UNION {DivOf(i) : i \in R}
        IN /\ l' = hi + 1
-          /\ viol' = viol \cup UNION {ViolOf(i) : i \in R}
-          /\ div'  = div \cup UNION {DivOf(i) : i \in R}
+          /\ viol' = viol \cup {v \in FirstOfEach(NV) : \A w \in viol : ~SameSig(v, w)}
+          /\ div'  = IF Cardinality(div) >= MaxDivKept THEN div ELSE div \cup ND
           /\ cnt' = [cases            |-> cnt.cases + Cardinality(C),
                      unbuilt          |-> cnt.unbuilt + Count(R, LAMBDA i : Trace[i].ev = "case" /\ ~Trace[i].built),
                      must             |-> cnt.must + Cardinality(MR),
@@ -62,7 +70,9 @@ TraceNext ==
                      free             |-> cnt.free + Cardinality(C \ MR),
                      free_accepted    |-> cnt.free_accepted + Count(C \ MR, LAMBDA i : ~Trace[i].rejected),
                      free_ante_passed |-> cnt.free_ante_passed + Count(C \ MR, LAMBDA i : Trace[i].handler_ran),
-                     accepted         |-> cnt.accepted + Count(C, LAMBDA i : ~Trace[i].rejected)]
+                     accepted         |-> cnt.accepted + Count(C, LAMBDA i : ~Trace[i].rejected),
+                     violating        |-> cnt.violating + Cardinality(NV),
+                     diverging        |-> cnt.diverging + Cardinality(ND)]
           /\ UNCHANGED st
 
 TraceSpec == TraceInit /\ [][TraceNext]_tvars
@@ -71,5 +81,5 @@ DivSample == LET q == SetToSeq(div) IN {q[i] : i \in 1..(IF Len(q) < 30 THEN Len
 
 Report == l <= Len(Trace) \/
           PrintT(<<"RESULT", ToJson([consumed |-> l - 1, scenarios |-> cnt.cases, viol |-> viol,
-                                     div |-> DivSample, ndiv |-> Cardinality(div), cnt |-> cnt])>>)
+                                     div |-> DivSample, ndiv |-> cnt.diverging, cnt |-> cnt])>>)
 =============================================================================
